@@ -1,245 +1,11 @@
 ------------------------------ MODULE IdpServer ------------------------------
 (***************************************************************************)
-(* C19 - the bundled IdP server (package samlidp) over a key/value Store.  *)
-(*                                                                         *)
-(* State = the four key spaces of the store (users, services, shortcuts,   *)
-(* sessions) plus the server's in-memory service registry.  Actions = the  *)
-(* HTTP routes (samlidp.go InitializeHTTP), a clock tick of 25 minutes     *)
-(* (sessions live one hour: age 3 = expired), a restart (a new server over *)
-(* the same store) and "the n-th store operation of this request fails".   *)
-(* act / reply carry the last request and the projection of its reply      *)
-(* that the harness can observe on the real server; they are not part of   *)
-(* the VIEW.  Every transition TLC explores is printed (EmitEdge) and      *)
-(* executed once on the real server from a snapshot of its source state.   *)
-(*                                                                         *)
-(* Abstract values: password classes p1 / e (empty string) ("none": no hash stored,        *)
-(* "absent": no such user), attribute versions 1/2 of a user record (what  *)
-(* "describes the user as stored at login" is judged on), entity IDs       *)
-(* e1/e2, service names, one shortcut, session slots.                      *)
+(* TLC wrapper of IdpServerCore.tla (the model of the bundled IdP server   *)
+(* and its properties, readable by TLAPS): adds the emission of every      *)
+(* transition for the harness.  IdpServerProof.tla proves                  *)
+(* RegistryIsImageOfStore for arbitrary constants.                         *)
 (***************************************************************************)
-EXTENDS Integers, Sequences, FiniteSets, TLC, Json
-
-CONSTANTS Users, SvcNames, Eids, Shortcuts, MaxSess, WithFaults
-
-Slots   == 1..MaxSess
-Pws     == {"p1", "e"}        \* "e" is the empty password: a legal value of the password field
-\* "L" is a password longer than the 72 bytes bcrypt can hash: the server refuses to store it (500);
-\* "L2" agrees with L on the first 72 bytes and differs after them: it is never anybody's password
-PutPws   == Pws \cup {"keep", "L"}
-LoginPws == Pws \cup {"L2"}
-\* what an AuthnRequest may name as its Issuer: an entity ID, or (a confusion the registry must not
-\* fall for - it is keyed by service name, requests are resolved by entity ID) the NAME of a service
-Issuers  == Eids \cup { "n:" \o n : n \in SvcNames }
-Cookies == {"none", "forged"} \cup { "k" \o ToString(k) : k \in Slots }
-SlotOf(ck) == CHOOSE k \in Slots : ck = "k" \o ToString(k)
-IsSlot(ck) == \E k \in Slots : ck = "k" \o ToString(k)
-
-NoUser == [pw |-> "absent", ver |-> 0]
-NoSess == [user |-> "", ver |-> 0, age |-> 0]
-NoReply == [status |-> 0, kind |-> "none", user |-> "", ver |-> 0, aud |-> "", cookie |-> 0]
-
-VARIABLES users,      \* [Users -> [pw, ver]]
-          services,   \* [SvcNames -> "" | eid]          stored services
-          registry,   \* [SvcNames -> "" | eid]          in-memory registry, by service name
-          shortcuts,  \* [Shortcuts -> "" | eid]
-          sessions,   \* [Slots -> [user, ver, age]]
-          act, reply
-vars == <<users, services, registry, shortcuts, sessions, act, reply>>
-View == [users |-> users, services |-> services, registry |-> registry, shortcuts |-> shortcuts, sessions |-> sessions]
-
-Init == /\ users = [u \in Users |-> NoUser]
-        /\ services = [n \in SvcNames |-> ""]
-        /\ registry = [n \in SvcNames |-> ""]
-        /\ shortcuts = [c \in Shortcuts |-> ""]
-        /\ sessions = [k \in Slots |-> NoSess]
-        /\ act = [n |-> "Init"] /\ reply = NoReply
-
-Registered(e) == \E n \in SvcNames : registry[n] = e
-Stored(e)     == \E n \in SvcNames : services[n] = e
-Live(k)       == sessions[k].user # "" /\ sessions[k].age < 3
-FreeSlots     == { k \in Slots : sessions[k].user = "" }
-CredsOK(u, pw) == users[u].pw = pw            \* pw \in Pws, so "none"/"absent" never match
-
-R(status, kind) == [NoReply EXCEPT !.status = status, !.kind = kind]
-Assertion(user, ver, aud) == [NoReply EXCEPT !.status = 200, !.kind = "assertion", !.user = user, !.ver = ver, !.aud = aud]
-
-\* session a request is entitled to through its cookie (GetSession, cookie branch)
-CookieSession(ck) == IF IsSlot(ck) /\ Live(SlotOf(ck)) THEN SlotOf(ck) ELSE 0
-
-Unch(S) == UNCHANGED S
-
-(****************************** management *********************************)
-PutUser(u, pw, ver) ==
-  /\ act' = [n |-> "PutUser", u |-> u, pw |-> pw, ver |-> ver]
-  /\ IF pw = "L"
-       THEN reply' = R(500, "error") /\ Unch(users)          \* bcrypt: password too long; nothing is stored
-       ELSE /\ users' = [users EXCEPT ![u] = [pw |-> IF pw = "keep" THEN (IF users[u].pw = "absent" THEN "none" ELSE users[u].pw) ELSE pw,
-                                               ver |-> ver]]
-            /\ reply' = R(204, "empty")
-  /\ Unch(<<services, registry, shortcuts, sessions>>)
-DeleteUser(u) ==
-  /\ users' = [users EXCEPT ![u] = NoUser]
-  /\ act' = [n |-> "DeleteUser", u |-> u] /\ reply' = R(204, "empty")
-  /\ Unch(<<services, registry, shortcuts, sessions>>)
-GetUser(u) ==
-  /\ act' = [n |-> "GetUser", u |-> u]
-  /\ reply' = IF users[u].pw = "absent" THEN R(500, "error") ELSE [R(200, "json") EXCEPT !.user = u, !.ver = users[u].ver]
-  /\ Unch(<<users, services, registry, shortcuts, sessions>>)
-\* PUT/POST /services/{n}: the stored service and the registry entry of that NAME are replaced together
-PutService(n, e) ==
-  /\ services' = [services EXCEPT ![n] = e] /\ registry' = [registry EXCEPT ![n] = e]
-  /\ act' = [n |-> "PutService", svc |-> n, e |-> e] /\ reply' = R(204, "empty")
-  /\ Unch(<<users, shortcuts, sessions>>)
-DeleteService(n) ==
-  /\ act' = [n |-> "DeleteService", svc |-> n]
-  /\ IF services[n] = "" THEN reply' = R(500, "error") /\ Unch(<<services, registry>>)
-     ELSE /\ services' = [services EXCEPT ![n] = ""] /\ registry' = [registry EXCEPT ![n] = ""]
-          /\ reply' = R(204, "empty")
-  /\ Unch(<<users, shortcuts, sessions>>)
-GetService(n) ==
-  /\ act' = [n |-> "GetService", svc |-> n]
-  /\ reply' = IF services[n] = "" THEN R(500, "error") ELSE [R(200, "xml") EXCEPT !.aud = services[n]]
-  /\ Unch(<<users, services, registry, shortcuts, sessions>>)
-PutShortcut(c, e) ==
-  /\ shortcuts' = [shortcuts EXCEPT ![c] = e]
-  /\ act' = [n |-> "PutShortcut", c |-> c, e |-> e] /\ reply' = R(204, "empty")
-  /\ Unch(<<users, services, registry, sessions>>)
-DeleteShortcut(c) ==
-  /\ shortcuts' = [shortcuts EXCEPT ![c] = ""]
-  /\ act' = [n |-> "DeleteShortcut", c |-> c] /\ reply' = R(204, "empty")
-  /\ Unch(<<users, services, registry, sessions>>)
-DeleteSession(k) ==
-  /\ sessions[k].user # ""
-  /\ sessions' = [sessions EXCEPT ![k] = NoSess]
-  /\ act' = [n |-> "DeleteSession", k |-> k] /\ reply' = R(204, "empty")
-  /\ Unch(<<users, services, registry, shortcuts>>)
-List(what) ==
-  /\ act' = [n |-> "List", what |-> what] /\ reply' = R(200, "json")
-  /\ Unch(<<users, services, registry, shortcuts, sessions>>)
-
-(************************* authentication and SSO **************************)
-NewSession(u) == LET k == CHOOSE x \in FreeSlots : \A y \in FreeSlots : x <= y
-                 IN [slot |-> k, s |-> [user |-> u, ver |-> users[u].ver, age |-> 0]]
-
-\* POST /login with credentials
-Login(u, pw) ==
-  /\ act' = [n |-> "Login", u |-> u, pw |-> pw]
-  /\ IF CredsOK(u, pw)
-       THEN /\ FreeSlots # {}
-            /\ LET ns == NewSession(u) IN
-                 /\ sessions' = [sessions EXCEPT ![ns.slot] = ns.s]
-                 /\ reply' = [R(200, "json") EXCEPT !.user = u, !.ver = users[u].ver, !.cookie = ns.slot]
-       ELSE reply' = R(200, "loginform") /\ Unch(sessions)
-  /\ Unch(<<users, services, registry, shortcuts>>)
-\* GET /login with a cookie only
-LoginCookie(ck) ==
-  /\ act' = [n |-> "LoginCookie", ck |-> ck]
-  /\ LET k == CookieSession(ck) IN
-       reply' = IF k = 0 THEN R(200, "loginform")
-                ELSE [R(200, "json") EXCEPT !.user = sessions[k].user, !.ver = sessions[k].ver]
-  /\ Unch(<<users, services, registry, shortcuts, sessions>>)
-\* GET /sso with an AuthnRequest issued by the SP with entity ID e, cookie ck
-SSO(e, ck) ==
-  /\ act' = [n |-> "SSO", e |-> e, ck |-> ck]
-  /\ LET k == CookieSession(ck) IN
-       reply' = IF ~Registered(e) THEN R(400, "error")
-                ELSE IF k = 0 THEN R(200, "loginform")
-                ELSE Assertion(sessions[k].user, sessions[k].ver, e)
-  /\ Unch(<<users, services, registry, shortcuts, sessions>>)
-\* POST /sso with the request and credentials (the login form posts back here)
-SSOLogin(e, u, pw) ==
-  /\ act' = [n |-> "SSOLogin", e |-> e, u |-> u, pw |-> pw]
-  /\ IF ~Registered(e) THEN reply' = R(400, "error") /\ Unch(sessions)
-     ELSE IF CredsOK(u, pw)
-       THEN /\ FreeSlots # {}
-            /\ LET ns == NewSession(u) IN
-                 /\ sessions' = [sessions EXCEPT ![ns.slot] = ns.s]
-                 /\ reply' = [Assertion(u, users[u].ver, e) EXCEPT !.cookie = ns.slot]
-       ELSE reply' = R(200, "loginform") /\ Unch(sessions)
-  /\ Unch(<<users, services, registry, shortcuts>>)
-\* GET /login/{c}: IdP-initiated launch
-Shortcut(c, ck) ==
-  /\ act' = [n |-> "Shortcut", c |-> c, ck |-> ck]
-  /\ LET k == CookieSession(ck) IN
-       reply' = IF shortcuts[c] = "" THEN R(500, "error")
-                ELSE IF k = 0 THEN R(200, "loginform")
-                ELSE IF ~Registered(shortcuts[c]) THEN R(404, "error")
-                ELSE Assertion(sessions[k].user, sessions[k].ver, shortcuts[c])
-  /\ Unch(<<users, services, registry, shortcuts, sessions>>)
-
-(************************ clock, restart, store faults **********************)
-Tick == /\ \E k \in Slots : Live(k)
-        /\ sessions' = [k \in Slots |-> IF sessions[k].user # "" /\ sessions[k].age < 3
-                                          THEN [sessions[k] EXCEPT !.age = @ + 1] ELSE sessions[k]]
-        /\ act' = [n |-> "Tick"] /\ reply' = NoReply
-        /\ Unch(<<users, services, registry, shortcuts>>)
-\* a new server over the same store: the registry is rebuilt from the stored services
-Restart == /\ registry' = services
-           /\ act' = [n |-> "Restart"] /\ reply' = NoReply
-           /\ Unch(<<users, services, shortcuts, sessions>>)
-
-Request ==
-  \/ \E u \in Users, pw \in PutPws, v \in {1, 2} : PutUser(u, pw, v)
-  \/ \E u \in Users : DeleteUser(u) \/ GetUser(u)
-  \/ \E n \in SvcNames, e \in Eids : PutService(n, e)
-  \/ \E n \in SvcNames : DeleteService(n) \/ GetService(n)
-  \/ \E c \in Shortcuts, e \in Eids : PutShortcut(c, e)
-  \/ \E c \in Shortcuts : DeleteShortcut(c)
-  \/ \E k \in Slots : DeleteSession(k)
-  \/ \E w \in {"users", "services", "shortcuts", "sessions"} : List(w)
-  \/ \E u \in Users, pw \in LoginPws : Login(u, pw)
-  \/ \E ck \in Cookies : LoginCookie(ck)
-  \/ \E e \in Issuers, ck \in Cookies : SSO(e, ck)
-  \/ \E e \in Issuers, u \in Users, pw \in LoginPws : SSOLogin(e, u, pw)
-  \/ \E c \in Shortcuts, ck \in Cookies : Shortcut(c, ck)
-
-\* "the n-th store operation of this request fails" (not-found or I/O error).  A handler
-\* whose store operation fails answers with an error or a login form and has had no
-\* effect (every route performs its single write last); if the failing position lies
-\* beyond the handler's last operation the request is an ordinary Request.  The harness
-\* derives the fault variants of every emitted edge and checks exactly this.
-ActShapes ==
-  { [n |-> "PutUser", u |-> u, pw |-> pw, ver |-> v] : u \in Users, pw \in PutPws, v \in {1, 2} }
-  \cup { [n |-> "GetUser", u |-> u] : u \in Users }
-  \cup { [n |-> "PutService", svc |-> x, e |-> e] : x \in SvcNames, e \in Eids }
-  \cup { [n |-> "DeleteService", svc |-> x] : x \in SvcNames }
-  \cup { [n |-> "Login", u |-> u, pw |-> pw] : u \in Users, pw \in LoginPws }
-  \cup { [n |-> "LoginCookie", ck |-> ck] : ck \in Cookies }
-  \cup { [n |-> "SSO", e |-> e, ck |-> ck] : e \in Issuers, ck \in Cookies }
-  \cup { [n |-> "SSOLogin", e |-> e, u |-> u, pw |-> pw] : e \in Issuers, u \in Users, pw \in LoginPws }
-  \cup { [n |-> "Shortcut", c |-> c, ck |-> ck] : c \in Shortcuts, ck \in Cookies }
-FailedRequest ==
-  /\ WithFaults
-  /\ \E a \in ActShapes, r \in {R(500, "error"), R(200, "loginform"), R(400, "error"), R(404, "error")} :
-       act' = [n |-> "Failed", of |-> a] /\ reply' = r
-  /\ Unch(<<users, services, registry, shortcuts, sessions>>)
-
-Next == Request \/ Tick \/ Restart \/ FailedRequest
-Spec == Init /\ [][Next]_vars
-
-(******************************* properties ********************************)
-IsAssertion(r) == r.kind = "assertion"
-\* who a request has authenticated as, judged on the state BEFORE the request
-AuthByCookie(a) == "ck" \in DOMAIN a /\ CookieSession(a.ck) # 0
-AuthByCreds(a)  == "pw" \in DOMAIN a /\ "u" \in DOMAIN a /\ a.n \in {"Login", "SSOLogin"} /\ CredsOK(a.u, a.pw)
-
-AssertionOnlyIfAuthenticated ==
-  [][ IsAssertion(reply') =>
-        \/ AuthByCookie(act') /\ reply'.user = sessions[CookieSession(act'.ck)].user
-        \/ AuthByCreds(act') /\ reply'.user = act'.u ]_vars
-OnlyToRegisteredNow ==
-  [][ IsAssertion(reply') => Stored(reply'.aud) ]_vars
-DescribesUserAsAtLogin ==
-  [][ IsAssertion(reply') =>
-        \/ AuthByCookie(act') /\ reply'.ver = sessions[CookieSession(act'.ck)].ver
-        \/ AuthByCreds(act') /\ reply'.ver = users[act'.u].ver ]_vars
-SessionOnlyByPassword ==
-  [][ reply'.cookie # 0 => AuthByCreds(act') ]_vars
-ExactlyOneReply ==
-  [][ act'.n \notin {"Tick", "Restart"} => reply'.status \in {200, 204, 400, 404, 500} ]_vars
-\* the registry is always the image of the stored services: a restart is unobservable
-RegistryIsImageOfStore == registry = services
-RestartUnobservable == [][ act'.n = "Restart" => View' = View ]_vars
+EXTENDS IdpServerCore, Json
 
 EmitEdge == [][ act'.n # "Failed" => PrintT(<<"EDGE", ToJson([from |-> View, act |-> act', reply |-> reply', to |-> View'])>>) ]_vars
 =============================================================================
